@@ -40,11 +40,7 @@ def run(tier):
     # scaled programs: several pool blocks (tokens and positions)
     scaled = []
     for k in (700, 1500, len(big)):
-        # a program that ends in inline HTML leaves the scanner in HTML mode: the next one keeps its open tag
-        acc = []
-        for s in big[:k]:
-            acc.append(s if (acc and acc[-1].endswith("</b>\n")) or not acc else "\n" + s[len("<?php "):])
-        scaled.append("".join(acc))
+        scaled.append(progs.join_programs(big[:k]))
     tasks = [{"op": "analyze", "src": s, "ver": v, "limit_ms": 60000} for s in scaled for v in ("7.4", "7.0")]
     for t, r in zip(tasks, wp.run(tasks)):
         check.count()
